@@ -110,10 +110,30 @@ let str_outcome = function
               (match k with KOk -> "ok" | KErr -> "err" | KContinue -> "cont" | KBreak -> "break" | KFoldErr _ -> "?"))
 
 (* one call run: returns unit, prints with tag prefix *)
-type callrun = { cf : cfg; mutable st : state; mutable nstart : int; mutable k : int; mutable stopped : bool; pre : string; id : string }
+(* `sg` = the function whose user future sends the interrupt signal in the poll in which it resolves
+   (config token `sig=<i>`); `mark` = length of the trace when it did (SelfSignal.step_sig; with
+   sg = None it is Sched.step, SelfSignalFacts.run_sig_none) *)
+type callrun = { cf : cfg; mutable st : state; mutable nstart : int; mutable k : int; mutable stopped : bool; pre : string; id : string;
+                 sg : nat option; mutable mark : nat option }
 
-let mk_callrun ?st0 id pre cf =
-  { cf; st = (match st0 with Some s -> s | None -> init cf); nstart = 0; k = 0; stopped = false; pre; id }
+let mk_callrun ?st0 ?sg id pre cf =
+  { cf; st = (match st0 with Some s -> s | None -> init cf); nstart = 0; k = 0; stopped = false; pre; id; sg; mark = None }
+
+let parse_sig tokens = match kv tokens "sig" "" with "" -> None | v -> Some (nat_of_int (int_of_string v))
+
+let rstep r ev =
+  let (st', mk') = step_sig r.sg r.cf (r.st, r.mark) ev in
+  r.st <- st'; r.mark <- mk'
+
+(* the trace with `!` where the signalling function sent the signal *)
+let str_trace_mark t mark =
+  match mark with
+  | None -> str_trace t
+  | Some k ->
+    let k = int_of_nat k in
+    let rec split n l acc = if n <= 0 then (List.rev acc, l) else match l with [] -> (List.rev acc, []) | x :: r -> split (n - 1) r (x :: acc) in
+    let (a, b) = split k t [] in
+    String.concat " " (List.filter (fun x -> x <> "-") [str_trace a; "!"; str_trace b])
 
 let rec drop n l = if n <= 0 then l else match l with [] -> [] | _ :: t -> drop (n - 1) t
 
@@ -124,18 +144,18 @@ let call_event r tok =
     let aborted = ref false in
     (match t with
      | "s" -> ()
-     | "i" -> r.st <- step r.cf r.st EInt
-     | "p" -> r.st <- step r.cf r.st EPoll
+     | "i" -> rstep r EInt
+     | "p" -> rstep r EPoll
      | "a" -> aborted := true
      | _ when String.length t >= 3 && t.[0] = 'c' ->
        let ok = t.[String.length t - 1] = 'o' in
        let i = int_of_string (String.sub t 1 (String.length t - 2)) in
-       r.st <- step r.cf r.st (ECmp (nat_of_int i, ok))
+       rstep r (ECmp (nat_of_int i, ok))
      | _ -> failwith ("bad event " ^ t));
     if !aborted then begin
       Printf.printf "OBS %s %se%d - A\n" r.id r.pre r.k; r.stopped <- true
     end else begin
-      if not nosettle then r.st <- step r.cf r.st ESettle;
+      if not nosettle then rstep r ESettle;
       let st = starts r.st.trace in
       let fresh = drop r.nstart st in
       r.nstart <- List.length st;
@@ -147,7 +167,7 @@ let call_event r tok =
   end
 
 let call_finish r =
-  Printf.printf "OBS %s %sT %s\n" r.id r.pre (str_trace r.st.trace);
+  Printf.printf "OBS %s %sT %s\n" r.id r.pre (str_trace_mark r.st.trace r.mark);
   Printf.printf "OBS %s %sO %s\n" r.id r.pre (if is_none r.st.panic then str_outcome r.st.result else "-")
 
 let parse_scfg gg tokens =
@@ -206,7 +226,7 @@ let handle kind id _hd rest =
   match kind, rest with
   | "X", [ops; cfgs; evs] ->
     let gg = build_graph id ops in
-    let r = mk_callrun id "" (parse_cfg gg (toks cfgs)) in
+    let r = mk_callrun ?sg:(parse_sig (toks cfgs)) id "" (parse_cfg gg (toks cfgs)) in
     List.iter (call_event r) (toks evs); call_finish r
   | "S", [ops; cfgs; evs] ->
     let gg = build_graph id ops in
